@@ -58,6 +58,8 @@ static int build(int cfg)
         NC.tpdo[TB].type = 254; NC.tpdo[TB].inhibit = (uint16_t)(TMR2[cfg - 54].inh0 * 10); NC.tpdo[TB].event = TMR2[cfg - 54].evt0;
         NC.tpdo[TB + 1].inhibit = (uint16_t)(TMR2[cfg - 54].inh1 * 10); NC.tpdo[TB + 1].event = TMR2[cfg - 54].evt1;
     }
+    /* a synchronous RPDO of type 1 with the number of TPDO1: the SYNC table is indexed by PDO number for both directions */
+    NC.n_rpdo = TB + 2; NC.rpdo[TB + 1].present = 1; NC.rpdo[TB + 1].cobid = 0x301; NC.rpdo[TB + 1].type = 1; NC.rpdo[TB + 1].nmap = 1; NC.rpdo[TB + 1].map[0] = NC_MAP(0x2112, 0, 32);
     MSPT = mc_opt("slow", 0) ? 10 : 1; NC.freq = 1000 / MSPT;
     for (int i = 0; i < 2; i++) { NC.tpdo[TB + i].inhibit = (uint16_t)(NC.tpdo[TB + i].inhibit * MSPT); NC.tpdo[TB + i].event = (uint16_t)(NC.tpdo[TB + i].event * MSPT); }
     nc_build();
